@@ -64,8 +64,9 @@ impl log::Log for FlexiLogger {
         let target = metadata.target();
         let level = metadata.level();
 
-        if !self.other_writers.is_empty() && target.starts_with('{') {
-            // at least one other writer is configured _and_ addressed
+        if target.starts_with('{') {
+            // a list of writers is addressed; log() treats such a target in the same way
+            // also if no other writer is configured
             let targets: Vec<&str> = writer_list(target).split(',').collect();
             let mut use_default = false;
             for t in targets {
